@@ -43,6 +43,7 @@ def dispatch_formulas():
            ('bind', 'x', None, ('exists', 'xx', None, ('and', ('jump', 'xx', ('and', A, ('EX', X))), ('not', XX)))),
            ('forall', 'x', None, ('bind', 'xx', None, ('or', ('and', XX, ('EX', X)), A))),
            ('exists', 'x', None, ('exists', 'xx', None, ('exists', 'xxx', None, ('and', ('jump', 'x', ('EX', XX)), ('and', ('jump', 'xx', ('EX', ('var', 'xxx'))), ('and', ('var', 'xxx'), A)))))),
+           ('exists', 'x', None, ('bind', 'xx', None, ('AX', X))), ('forall', 'x', None, ('bind', 'xx', None, ('AG', ('EF', X)))), ('bind', 'x', None, ('EX', ('bind', 'xx', None, ('AX', X)))),
            ('true',), ('false',), ('prop', 'v0'), ('not', ('prop', 'v1')), ('bind', 'x', None, X)]
     return fs
 
